@@ -388,7 +388,7 @@ func genCase(t *rapid.T) Case {
 }
 
 func TestPixelRelations(t *testing.T) {
-	harness.Rapid(t, harness.N(1500, 16*3000), func(t *rapid.T) {
+	harness.Rapid(t, harness.N(1500, 16*15000), func(t *rapid.T) {
 		c := genCase(t)
 		labels := []string{"relation=" + c.Relation}
 		if c.Alpha {
